@@ -17,7 +17,8 @@ inductive Cell where
 
 /-- the declared default of a column (`_props[name][1]`).  `list_props._default` builds
 `pd.Series(default, dtype=…)`: a scalar gives a one-row series, an empty list gives a series with
-**no** row, which the one-row default frame then fills with NaN (finding D08). -/
+**no** row (NaN in the one-row default frame — finding D08, repaired: `TimedList.empty` now writes one fresh
+list per row into such a column). -/
 inductive Dflt where
   | scalar (c : Cell)
   | emptyList
